@@ -527,6 +527,7 @@ __gmp_doprnt (const struct doprnt_funs_t *funs, void *data,
 
           case '-':
             param.justify = DOPRNT_JUSTIFY_LEFT;
+            param.fill = ' ';   /* as in C, '-' overrides '0' */
             break;
           case '.':
             seen_precision = 1;
@@ -544,6 +545,7 @@ __gmp_doprnt (const struct doprnt_funs_t *funs, void *data,
                   if (n < 0)
                     {
                       param.justify = DOPRNT_JUSTIFY_LEFT;
+                      param.fill = ' ';
                       n = -n;
                     }
                   param.width = n;
@@ -559,8 +561,9 @@ __gmp_doprnt (const struct doprnt_funs_t *funs, void *data,
           case '0':
             if (value == &param.width)
               {
-                /* in width field, set fill */
-                param.fill = '0';
+                /* in width field, set fill, unless '-' was already given */
+                if (param.justify != DOPRNT_JUSTIFY_LEFT)
+                  param.fill = '0';
 
                 /* for right justify, put the fill after any minus sign */
                 if (param.justify == DOPRNT_JUSTIFY_RIGHT)
